@@ -4,9 +4,12 @@ from props.regcommon import RB, entries, catalogue
 from vlib import flatten_idx
 
 ID = "C07"
-THEOREMS_PLANNED = [("FlatModel.Props.C07", t) for t in ("FC.C07.decode_encode", "FC.C07.roundtrip", "FC.C07.refuses_ambiguous",
-                                                  "FC.C07.wf_newFrom", "FC.C07.wf_default", "FC.C07.frame")]
-THEOREMS = []
+THEOREMS = [("FlatModel.Props.C07", t) for t in (
+    "FC.C07.wf_default", "FC.C07.wf_newFrom", "FC.C07.wf_newFrom_of_wf", "FC.C07.newFrom_hit_any", "FC.C07.decode_encode",
+    "FC.C07.roundtrip", "FC.C07.frame", "FC.C07.refuses_ambiguous", "FC.C07.accepts_empty", "FC.C07.accepts_hit",
+    "FC.C07.accepts_all_default", "FC.C07.reachable_wf", "FC.C07.generations", "FC.C07.generations_batch", "FC.C07.merge_inv",
+    "FC.C07.heavy_hitters_one_byte_partial", "FC.C07.heavy_hitters_all_tagged", "FC.C07.all_sources_tagged",
+    "FC.C07.all_pushed_tagged")]
 PROFILES = {"quick": ["checked"], "thorough": ["checked", "wrapping"], "search": ["checked"]}
 RULE = ("source regions filled from small vocabularies (1..9 strings over 1..4 first bytes, the empty string, skewed counts), "
         "merge_regions over 1..3 sources, pushes of vocabulary words / random strings / single low bytes / extensions / prefixes, "
@@ -122,6 +125,36 @@ def script(rng, cat, big=False):
     return b.s
 
 
+def scarce(rng, cat):
+    """few free tags: the sources see almost every byte value as a first byte, so *which* of many equally frequent
+    strings get the few tags (ties: ascending byte order, sort_by is stable) becomes observable as 1 byte vs literal"""
+    b = RB(ID, cat, rng)
+    utf8 = cat["shape"] == ("bytes", True)
+    pool = list(range(1, 128)) if utf8 else list(range(256))
+    nfree = 1 + rng.below(6)
+    # leave nfree byte values unseen
+    for _ in range(nfree if not utf8 else 0):
+        pool.pop(rng.below(len(pool)))
+    b.new("s")
+    words = []
+    for fb in pool:
+        w = bytes([fb]) + (b"a" if utf8 else bytes([rng.below(3)]))
+        words.append(w)
+    # a few words get higher counts, the rest tie at 1
+    for w in words:
+        for _ in range(1 + (rng.below(3) if rng.below(10) == 0 else 0)):
+            b.push("s", w, b.form_for(w), sig="codec-default-push", cmp="idx")
+    extra = [bytes([words[0][0]]) + b"zz%d" % i for i in range(3 + rng.below(6))]
+    for w in extra:
+        b.push("s", w, b.form_for(w), sig="codec-default-push", cmp="idx")
+    b.merge("t", ["s"])
+    b.s.nontrivial = True
+    for w in [rng.pick(words + extra) for _ in range(30)]:
+        k, _ = b.push("t", w, b.form_for(w), expect=("prefix", "idx"), sig="codec-unambiguous-refused", cmp="idx")
+        b.read("t", k, sig="codec-read-differs")
+    return b.s
+
+
 def generate(seed, tier):
     rng = Rng(seed * 13 + 7)
     n = {"quick": 250, "thorough": 3000, "search": 800}[tier]
@@ -129,6 +162,8 @@ def generate(seed, tier):
     out = []
     for i in range(n):
         out.append(script(rng.fork(), cats[i % len(cats)]))
+    for i in range({"quick": 6, "thorough": 60, "search": 20}[tier]):
+        out.append(scarce(rng.fork(), cats[i % len(cats)]))
     if tier == "thorough":
         for i in range(6):
             out.append(script(rng.fork(), cats[0], big=True))
